@@ -367,6 +367,10 @@ def eff_ref(tree, sp, place, path):
         notsubr = z3.Not(z3.Bool("subr_" + tree.key(place, ppath + [fld("Def", "sig")])))
         for ch in pl[2]["body"][2]["block"][2]["0"][1]:
             out.append(z3.And(notsubr, sub_expr(tree, ch)))
+        # the default-parameter values of a subroutine definition are evaluated when the definition is executed; the effect checker
+        # admits an effectful default only for a procedure (a function with one is rejected), so: procedure and effectful default => impure
+        sk = tree.key(place, ppath + [fld("Def", "sig")])
+        out.append(z3.And(z3.Bool("subr_" + sk), z3.Bool("procname_" + sk), z3.Bool("EFF_default_value")))
     elif v in ("Code", "Compound"):
         for ch in pl[2]["0"][1]:
             out.append(sub_expr(tree, ch))
@@ -448,6 +452,7 @@ def shapes(tier):
         ("type-ascription", expr("TypeAsc", st("TypeAscription", expr=("box", L("e")))), None, None),
         ("attribute", expr("Accessor", ("enum", "Accessor", "Attr", st("Attribute", obj=("box", L("o"))))), "x = «o».real", None),
         ("def", expr("Def", vardef([L("a"), L("b")])), "x =\n    y = «a»\n    «b»", None),
+        ("procedure-definition", expr("Def", vardef([L("a")])), "x!(y := «d») =\n    y", None, {"procname_": True, "subr_": True}),
         ("compound", expr("Compound", block([L("a"), L("b")])), None, None),
         ("code", expr("Code", block([L("a")])), None, None),
         ("lambda", expr("Lambda", st("Lambda", body=block([L("a")]))), None, None),
@@ -549,7 +554,9 @@ def run(tier, seed, only=None):
             outs = flow.run("bb0", stop_at=(), pre=pre, pc=P0.pc)
             return flow, tree, P0, [(Q, Q.locals.get("_0")) for Q, end in outs if end == "return"]
 
-        for key, sp, tmpl, tmpl_proc in shapes(tier):
+        for shp in shapes(tier):
+            key, sp, tmpl, tmpl_proc = shp[:4]
+            flagpins = shp[4] if len(shp) > 4 else {}
             okey = "covers/" + key
             if only and not any(o in okey for o in only.split(",")):
                 continue
@@ -576,7 +583,7 @@ def run(tier, seed, only=None):
                         verdict = VIOLATED
                     elif r1 not in ("sat", "unsat") and verdict == HELD:
                         verdict, reason = INCONCLUSIVE, "solver " + r1
-                runs[key] = (flow, tree, paths, sp, tmpl)
+                runs[key] = (flow, tree, paths, sp, tmpl, flagpins)
                 ob["queries"] = flow.queries + 2 * npaths
                 ob["detail"] = {"paths": npaths}
                 if npaths == 0:
@@ -606,7 +613,7 @@ def run(tier, seed, only=None):
                 Ok(art) => {
                     for chunk in art.object.module.iter() {
                         if let Expr::Def(def) = chunk {
-                            if &def.sig.ident().inspect()[..] == "x" {
+                            if &def.sig.ident().inspect()[..] == "x" || &def.sig.ident().inspect()[..] == "x!" {
                                 return format!("{}", SideEffectChecker::is_impure(chunk));
                             }
                         }
@@ -621,7 +628,7 @@ def run(tier, seed, only=None):
         nr = NativeRun(s, "erg_compiler", "crates/erg_compiler/effectcheck.rs", helpers=helpers)
         rs = lambda p: '"%s"' % p.replace("\\", "\\\\").replace('"', '\\"').replace("\n", "\\n")
         tv = []
-        for key, (flow, tree, paths, sp, tmpl) in sorted(runs.items()):
+        for key, (flow, tree, paths, sp, tmpl, flagpins) in sorted(runs.items()):
             if not tmpl:
                 continue
             holes = sorted(set(re.findall(r"«(\w+)»", tmpl)))
@@ -659,12 +666,13 @@ def run(tier, seed, only=None):
             got = res.get("t.%d" % i)
             if got not in ("true", "false") or tbad:
                 continue
-            flow, tree, paths, sp, _ = runs[key]
+            flow, tree, paths, sp, _, flagpins = runs[key]
             pins = [imp == ((imp_call if assign[n] else imp_lit) == "true") for n, (eff, imp, k, t) in tree.leaves.items() if n in assign]
             outs = set()
             for Q, rv in paths:
                 tr = S.truth(flow, rv)
-                own_false = [d == False for d in z3.z3util.get_vars(z3.And(Q.pc + [tr])) if str(d).startswith(("isproc_", "procname_", "subr_"))]
+                own_false = [d == next((v for pfx, v in flagpins.items() if str(d).startswith(pfx)), False)
+                             for d in z3.z3util.get_vars(z3.And(Q.pc + [tr])) if str(d).startswith(("isproc_", "procname_", "subr_"))]
                 if check(Q.pc + pins + own_false + [tr])[0] == "sat":
                     outs.add("true")
                 if check(Q.pc + pins + own_false + [z3.Not(tr)])[0] == "sat":
